@@ -83,12 +83,14 @@ class PredLog:
         self.value_calls = []  # (predname, boundname, value_ok_for_bound, repr)
         self.class_calls = 0
         self.value_count = 0
+        self.hook_calls = 0    # __type_order__ / __is_supertype__ hooks of harness classes
         self.keep = True
 
     def clear(self):
         self.value_calls.clear()
         self.class_calls = 0
         self.value_count = 0
+        self.hook_calls = 0
 
 
 # --------------------------------------------------------------------------- environment
@@ -147,12 +149,34 @@ class Env:
         if spec.get("len"):
             ns["__len__"] = lambda self: 0
         bases = tuple(self.names[b] for b in spec.get("bases") or ["object"])
-        c = type(spec["name"], bases, ns)
+        meta = type
+        if spec.get("ordhook") or any(type(b) is not type and getattr(type(b), "__vf_hookmeta__", False) for b in bases):
+            meta = self.hookmeta()
+        c = meta(spec["name"], bases, ns)
         if spec.get("shape"):
             self.names["Shape"].register(c)
         self.names[spec["name"]] = c
         self.user.append(c)
         return c
+
+    def hookmeta(self):
+        """metaclass whose instances carry user order / subtype hooks that only count and defer"""
+        if getattr(self, "_hookmeta", None) is None:
+            log = self.predlog
+
+            class HookMeta(type):
+                __vf_hookmeta__ = True
+
+                def __type_order__(cls, other):
+                    log.hook_calls += 1
+                    return NotImplemented
+
+                def __is_supertype__(cls, other):
+                    log.hook_calls += 1
+                    return NotImplemented
+
+            self._hookmeta = HookMeta
+        return self._hookmeta
 
     def cls(self, name):
         return self.names[name]
